@@ -61,7 +61,10 @@ pub fn batches(prop: &str, thorough: bool) -> Vec<Batch> {
     let b16m: [u64; 7] = [0, 0, 0, 0, 0, 0, 1];
     let long: [u64; 7] = [0, 0, 10, 40, 50, 0, 0];
     let oversize = matches!(prop, "C01" | "C02" | "C05");
-    let mk = |name, subjects: &[K], faults, classes: [u64; 7], runs| Batch { name, cfg: GenCfg { subjects: subjects.to_vec(), faults, classes, oversize }, runs };
+    let mk = |name, subjects: &[K], faults, classes: [u64; 7], runs| Batch { name, cfg: GenCfg { subjects: subjects.to_vec(), faults, classes, oversize, deep: false }, runs };
+    // thorough tier only: a batch with much larger bounds
+    let deep = |name, subjects: &[K], classes: [u64; 7], runs| Batch { name, cfg: GenCfg { subjects: subjects.to_vec(), faults: false, classes, oversize, deep: true }, runs };
+    let deepc: [u64; 7] = [0, 0, 10, 10, 80, 0, 0];
     let count_tables = [Xsdt, Mcfg, Madt, Rhct, Hest, Rimt];
     match prop {
         "C01" => vec![
@@ -70,6 +73,7 @@ pub fn batches(prop: &str, thorough: bool) -> Vec<Batch> {
             mk("long-and-256-boundaries", &gen::TABLES, false, long, q(1_500, 60_000)),
             mk("64k-boundaries", &count_tables, false, b64k, q(12, 160)),
             mk("16M-byte-boundary", &[Xsdt, Mcfg], false, b16m, q(0, 4)),
+            deep("deep-bounds", &gen::CHECKSUMMED, deepc, q(0, 1_500)),
         ],
         "C02" => {
             let mut all = gen::CHECKSUMMED.to_vec();
@@ -80,6 +84,7 @@ pub fn batches(prop: &str, thorough: bool) -> Vec<Batch> {
                 mk("long-and-256-boundaries", &gen::TABLES, false, long, q(1_500, 60_000)),
                 mk("64k-boundaries", &count_tables, false, b64k, q(12, 160)),
                 mk("16M-byte-boundary", &[Xsdt, Mcfg], false, b16m, q(0, 4)),
+                deep("deep-bounds", &all, deepc, q(0, 1_500)),
             ]
         }
         "C03" => vec![
@@ -87,12 +92,14 @@ pub fn batches(prop: &str, thorough: bool) -> Vec<Batch> {
             mk("faults", &gen::TABLES, true, shortf, q(50_000, 2_000_000)),
             mk("long-and-256-boundaries", &gen::TABLES, false, long, q(1_500, 60_000)),
             mk("64k-boundaries", &count_tables, false, b64k, q(10, 120)),
+            deep("deep-bounds", &gen::TABLES, deepc, q(0, 1_200)),
         ],
         "C05" => vec![
             mk("fault-free", &[Pptt, Rhct, Rimt, Viot], false, short, q(110_000, 5_000_000)),
             mk("faults", &[Pptt, Rhct, Rimt, Viot], true, shortf, q(40_000, 2_000_000)),
             mk("long-and-256-boundaries", &[Pptt, Rhct, Rimt, Viot], false, long, q(1_500, 60_000)),
             mk("64k-boundaries", &[Rhct, Rimt], false, b64k, q(4, 40)),
+            deep("deep-bounds", &[Pptt, Rhct, Rimt], deepc, q(0, 600)),
         ],
         "C11" => vec![
             mk("fault-free", &[Madt, Srat, Pptt, Cedt, Hmat, SysLocSubj, TcpaServer, Fadt, Rimt, Hest], false, short, q(200_000, 8_000_000)),
@@ -101,10 +108,12 @@ pub fn batches(prop: &str, thorough: bool) -> Vec<Batch> {
         "C12" => vec![
             mk("fault-free", &[Slit, SysLocSubj, Hmat], false, [6, 50, 30, 10, 4, 0, 0], q(120_000, 5_000_000)),
             mk("faults", &[Slit, SysLocSubj, Hmat], true, [4, 50, 36, 10, 0, 0, 0], q(60_000, 2_000_000)),
+            deep("deep-bounds", &[Slit, Hmat], [0, 30, 40, 20, 10, 0, 0], q(0, 2_000)),
         ],
         "C13" => vec![
             mk("fault-free", &[SdtSubj], false, [4, 56, 30, 6, 4, 0, 0], q(150_000, 6_000_000)),
             mk("faults", &[SdtSubj], true, [4, 56, 30, 6, 4, 0, 0], q(150_000, 6_000_000)),
+            deep("deep-bounds", &[SdtSubj], [0, 30, 40, 20, 10, 0, 0], q(0, 4_000)),
         ],
         "C14" => {
             let mut all = gen::CHECKSUMMED.to_vec();
@@ -118,6 +127,7 @@ pub fn batches(prop: &str, thorough: bool) -> Vec<Batch> {
         "C17" => vec![
             mk("fault-free", &[CksumSubj], false, [2, 38, 40, 10, 10, 0, 0], q(60_000, 3_000_000)),
             mk("faults", &[CksumSubj], true, [2, 38, 40, 10, 10, 0, 0], q(30_000, 1_500_000)),
+            deep("deep-bounds", &[CksumSubj], [0, 40, 40, 10, 10, 0, 0], q(0, 20_000)),
         ],
         _ => Vec::new(),
     }
@@ -556,6 +566,7 @@ pub fn check(prop: &str, tier: &str, profile: &str, evidence_path: Option<String
                 .set("runs", J::U(b.runs))
                 .set("faults_enabled", J::Bool(b.cfg.faults))
                 .set("oversized_sub_element_counts", J::Bool(b.cfg.oversize))
+                .set("deep_bounds", J::Bool(b.cfg.deep))
                 .set("subjects", J::A(b.cfg.subjects.iter().collect::<BTreeSet<_>>().into_iter().map(|k| J::s(k.name())).collect()))
                 .set("length_class_weights_empty_short_medium_b256_long_b64k_b16M", J::A(b.cfg.classes.iter().map(|x| J::U(*x)).collect()))
                 .set("event_log_digest", J::s(&format!("{:016x}", r.digest)))
